@@ -37,11 +37,50 @@ def run(survey, model, grids, workers, file_dir=None):
     return syn, fields, mf, g, syn2
 
 
+def _timed_task(delay, label):
+    import time
+    time.sleep(delay)
+    return label
+
+
+def order_of_process_map():
+    """process_map returns the results in the order of its inputs whatever the order of completion: every backend (tqdm present / absent),
+    worker counts 1 and 3, progress display on / off (output swallowed), tasks that finish in reverse order of submission"""
+    import contextlib
+    import io
+    from emg3d import _multiprocessing as mp_
+    delays = [0.6, 0.0, 0.3, 0.15]
+    labels = ['a', 'b', 'c', 'd']
+    saved = mp_.tqdm
+    cases = 0
+    try:
+        for backend in ('tqdm', 'none'):
+            if backend == 'none':
+                mp_.tqdm = None
+            elif saved is None:
+                continue
+            for workers in (1, 3):
+                for disable in (True, False):
+                    cases += 1
+                    buf = io.StringIO()
+                    with contextlib.redirect_stdout(buf), contextlib.redirect_stderr(buf):
+                        got = mp_.process_map(_timed_task, delays, labels, max_workers=workers, disable=disable, desc='c11')
+                    if list(got) != labels:
+                        return dict(reproduced=True, cases=cases, clause='process_map does not return the results in input order', backend=backend,
+                                    max_workers=workers, disable=disable, got=list(got), want=labels, how='contracts.c11_concrete.order_of_process_map')
+    finally:
+        mp_.tqdm = saved
+    return dict(reproduced=False, cases=cases)
+
+
 def check(tier='quick', seed=0):
     import tempfile
+    r = order_of_process_map()
+    if r['reproduced']:
+        return r
     survey, model, grids = build(seed)
     ref = run(survey, model, grids, 1)
-    cases = 1
+    cases = 1 + r['cases']
     cfgs = [(3, False), (2, True)] if tier == 'quick' else [(2, False), (3, False), (4, False), (1, True), (3, True)]
     for workers, files in cfgs:
         cases += 1
